@@ -177,6 +177,115 @@ def vWalk : List Layer → Mem → Str → Except PErr (List (Str × Content))
       | .error e => .error e
       | .ok objs => .ok (objs.filter fun kv => f.matches kv.1)
 
+/-! ### Composite read buckets (multi.go) over several base buckets -/
+
+/-- A read-bucket expression over base buckets `0, 1, …`. `multi`/`overlay` are the binary
+    forms of `storage.MultiReadBucket` / `storage.OverlayReadBucket`. -/
+inductive BExpr where
+  | base (i : Nat)
+  | pre (pfx : Str) (b : BExpr)
+  | filt (m : Matcher) (b : BExpr)
+  | multi (a b : BExpr)
+  | overlay (a b : BExpr)
+
+abbrev Bases := List Mem
+
+def Bases.get (bs : Bases) (i : Nat) : Mem := bs.getD i []
+
+def rGet : BExpr → Bases → Str → Except PErr Content
+  | .base i, bs, path => memGet (bs.get i) path
+  | .pre p b, bs, path =>
+    match mapFullPath p path with
+    | .error e => .error e
+    | .ok full => rGet b bs full
+  | .filt f b, bs, path =>
+    match normalizeAndValidate path with
+    | .error e => .error e
+    | .ok q => if !f.matches q then .error .notExist else rGet b bs q
+  | .multi a b, bs, path =>
+    -- Stat every delegate in order; the first error other than not-exist is returned
+    match rGet a bs path with
+    | .error .notExist =>
+      (match rGet b bs path with
+        | .error e => .error e
+        | .ok cb => .ok cb)
+    | .error e => .error e
+    | .ok ca =>
+      (match rGet b bs path with
+        | .error .notExist => .ok ca
+        | .error e => .error e
+        | .ok _ => .error .multiple)
+  | .overlay a b, bs, path =>
+    match rGet a bs path with
+    | .ok ca => .ok ca
+    | .error .notExist => rGet b bs path
+    | .error e => .error e
+
+def hasKey (objs : List (Str × Content)) (k : Str) : Bool := objs.any (fun kv => kv.1 = k)
+
+/-- second delegate's walk under `multi`: a path already seen is an error -/
+def mergeMulti (seen : List (Str × Content)) : List (Str × Content) → Except PErr (List (Str × Content))
+  | [] => .ok []
+  | kv :: rest =>
+    if hasKey seen kv.1 then .error .multiple
+    else match mergeMulti seen rest with
+      | .error e => .error e
+      | .ok out => .ok (kv :: out)
+
+def rWalk : BExpr → Bases → Str → Except PErr (List (Str × Content))
+  | .base i, bs, pfx => memWalk (bs.get i) pfx
+  | .pre p b, bs, pfx =>
+    match normalizeAndValidate pfx with
+    | .error e => .error e
+    | .ok q =>
+      match rWalk b bs (join [p, q]) with
+      | .error e => .error e
+      | .ok objs => unmapAll p objs
+  | .filt f b, bs, pfx =>
+    match normalizeAndValidate pfx with
+    | .error e => .error e
+    | .ok q =>
+      match rWalk b bs q with
+      | .error e => .error e
+      | .ok objs => .ok (objs.filter fun kv => f.matches kv.1)
+  | .multi a b, bs, pfx =>
+    match rWalk a bs pfx with
+    | .error e => .error e
+    | .ok oa =>
+      match rWalk b bs pfx with
+      | .error e => .error e
+      | .ok ob =>
+        match mergeMulti oa ob with
+        | .error e => .error e
+        | .ok ob' => .ok (oa ++ ob')
+  | .overlay a b, bs, pfx =>
+    match rWalk a bs pfx with
+    | .error e => .error e
+    | .ok oa =>
+      match rWalk b bs pfx with
+      | .error e => .error e
+      | .ok ob => .ok (oa ++ ob.filter fun kv => !hasKey oa kv.1)
+
+def Bases.set (bs : Bases) (i : Nat) (m : Mem) : Bases :=
+  (List.range (max bs.length (i + 1))).map fun j => if j = i then m else bs.get j
+
+def putAll : Mem → List (Str × Content) → Except PErr Mem
+  | m, [] => .ok m
+  | m, (k, v) :: rest =>
+    match memPut m k v with
+    | .error e => .error e
+    | .ok m' => putAll m' rest
+
+/-- `storage.Copy(from, to)` (also the net effect of Tar→Untar and Zip→Unzip into `to`):
+    walk everything, put each object under the same path. Returns the count too. -/
+def rCopy (e : BExpr) (bs : Bases) (target : Nat) : Except PErr (Nat × Bases) :=
+  match rWalk e bs [] with
+  | .error er => .error er
+  | .ok objs =>
+    match putAll (bs.get target) objs with
+    | .error er => .error er
+    | .ok m' => .ok (objs.length, bs.set target m')
+
 /-! ### The abstract spec: a finite map from component lists to contents. -/
 
 abbrev Spec := List (Key × Content)
